@@ -8,7 +8,7 @@ shared with pytolean.py); meanings in lean/Rbacx/Model/PyReloader.lean (namespac
 `HotReloader.check_and_reload_async` / `_register_error` (policy/loader.py, property C10; plugin extractors/src_translation_reloader.py).
 Syntax-directed; anything outside the shapes below raises `Unsupported`.
 
-`translate_class(src, cls, {method: lean name — callees first}, StateCfg(...), prefix)` renders
+`translate_class(src, cls, {method: lean name — callees first}, StateCfg(...), prefix, ranges=…, signatures=…)` renders
 
     structure <prefix>State (T : Type) where <field> : <type> …
     def <lean name> {T P : Type} (N : Rbacx.PyR.Num T) (<config> : T)… (<reading>k : T)… (<external>k : Except String <ret>)…
